@@ -210,13 +210,13 @@ pub fn run_salt(scn: &Scenario, ctx: &mut Ctx) {
                             ctx.probe("short-salt-refused");
                         }
                     }
-                    Err(p) => ctx.violate_sig("C16.no-panic", format!("add_salt_with_len panicked: {}", p), p),
+                    Err(p) => ctx.violate_sig("C17.range", format!("add_salt_with_len({}) panicked instead of adding the salt or refusing: {}", want, p), p),
                 }
                 ctx.t(&format!("Z.WithLen {}", want));
             }
             "Z.InRange" => {
                 let lo_req = (st.arg(1) % 20) as usize;
-                let span = (st.arg(2) % 40) as usize;
+                let span = if st.arg(2) % 5 == 0 { 0 } else { (st.arg(2) % 40) as usize }; // single-length ranges included
                 ctx.checked();
                 match guarded(|| doc.add_salt_in_range(lo_req..=lo_req + span)) {
                     Ok(Ok(e)) => {
@@ -235,7 +235,7 @@ pub fn run_salt(scn: &Scenario, ctx: &mut Ctx) {
                             ctx.probe("short-salt-refused");
                         }
                     }
-                    Err(p) => ctx.violate_sig("C16.no-panic", format!("add_salt_in_range panicked: {}", p), p),
+                    Err(p) => ctx.violate_sig("C17.range", format!("add_salt_in_range({}..={}) panicked instead of adding the salt or refusing: {}", lo_req, lo_req + span, p), p),
                 }
                 ctx.t(&format!("Z.InRange {} +{}", lo_req, span));
             }
@@ -243,6 +243,13 @@ pub fn run_salt(scn: &Scenario, ctx: &mut Ctx) {
                 let (pi, oi) = (w.idx(st.arg(1)).unwrap_or(d), w.idx(st.arg(2)).unwrap_or(d));
                 let (p, o) = (w.docs[pi].env.clone(), w.docs[oi].env.clone());
                 let plain = Envelope::new_assertion(p.clone(), o.clone());
+                // sometimes the envelope already holds the bare (unsalted) copy of the very assertion
+                let doc = if st.arg(3) % 4 == 1 {
+                    ctx.probe("salted-add-next-to-bare-copy");
+                    doc.add_assertion(p.clone(), o.clone())
+                } else {
+                    doc
+                };
                 // unsalted add is deterministic
                 ctx.checked();
                 let u1 = doc.add_assertion_salted(p.clone(), o.clone(), false);
@@ -382,7 +389,7 @@ fn make_function(code: u64) -> Function {
         2 => Function::new_named(&format!("fn{}", code / 6 % 5)),
         3 => Function::new_named("add"),
         4 => Function::new_known(2, Some("add".to_string())), // same text as the named one above, different function
-        _ => Function::new_named(""),
+        _ => Function::new_static_named("staticFn"), // a named function declared as a constant
     }
 }
 /// are the functions built from two codes the same function? (decided from how they were built: both
@@ -395,7 +402,7 @@ fn same_function(a: u64, b: u64) -> bool {
             2 => (1, 0, format!("fn{}", code / 6 % 5)),
             3 => (1, 0, "add".to_string()),
             4 => (0, 2, String::new()),
-            _ => (1, 0, String::new()),
+            _ => (1, 0, "staticFn".to_string()),
         }
     };
     key(a) == key(b)
@@ -776,7 +783,7 @@ pub fn generate_expr(property: &str, r: &mut SimRng, seed: u64) -> Scenario {
 // C19 attachments and types
 
 const VENDORS: [&str; 4] = ["com.example", "com.example.sub", "org.other", "com.exampl"];
-const CONFORMS: [Option<&str>; 4] = [None, Some("https://example.com/v1"), Some("https://example.com/v2"), Some("https://example.com/v")];
+const CONFORMS: [Option<&str>; 5] = [None, Some("https://example.com/v1"), Some("https://example.com/v2"), Some("https://example.com/v"), Some("")];
 
 pub fn run_attach(scn: &Scenario, ctx: &mut Ctx) {
     let mut w = World::new(scn.cfg("leafdom", crate::gen::DOM_ALL));
@@ -808,7 +815,7 @@ pub fn run_attach(scn: &Scenario, ctx: &mut Ctx) {
                 let mut contrib: Vec<(usize, usize, usize)> = vec![];
                 for _ in 0..k {
                     let pd = w.idx(r.below(6)).unwrap_or(d);
-                    contrib.push((pd, r.below(4) as usize, r.below(4) as usize));
+                    contrib.push((pd, r.below(4) as usize, r.below(5) as usize));
                 }
                 if r.chance(1, 3) {
                     let c = contrib[0];
@@ -948,12 +955,12 @@ pub fn run_attach(scn: &Scenario, ctx: &mut Ctx) {
                 let mut fr = SimRng::new(st.arg(2) ^ 0xf117e5);
                 let full = scn.cfg("thorough", 0) == 1;
                 for vf in 0..5usize {
-                    for cf in 0..5usize {
+                    for cf in 0..6usize {
                         if !full && !fr.chance(1, 3) {
                             continue;
                         }
                         let vendor = if vf < 4 { Some(VENDORS[vf]) } else { None };
-                        let conf: Option<&str> = if cf < 4 { CONFORMS[cf].or(Some("https://nobody")) } else { None };
+                        let conf: Option<&str> = if cf < 5 { CONFORMS[cf].or(Some("https://nobody")) } else { None };
                         let want: BTreeSet<_> = model.iter().filter(|(_, v, c)| vendor.map(|x| x == v).unwrap_or(true) && conf.map(|x| c.as_deref() == Some(x)).unwrap_or(true)).cloned().collect();
                         ctx.checked();
                         match guarded(|| rx.attachments_with_vendor_and_conforms_to(vendor, conf)) {
